@@ -317,8 +317,10 @@ def run_ops(ops):
             if is_multi(a) or (b is not None and is_multi(b)): continue
             Ha = read(a, 'H'); Hb = read(b, 'H') if b is not None else 0.0
             if Ha != Ha or Hb != Hb: continue
+            b_empty = b is not None and b.isempty()
             head = (f'sep r={st_of(a)} Hs={fbits(Ha)} Ho={fbits(Hb)} none={1 if b is None else 0} '
-                    f'same={1 if a is b else 0}')
+                    f'oe={1 if b_empty else 0} same={1 if a is b else 0}')
+            Ta, Pa, pha = a.T, a.P, ph_of(a)
             rec = []; _REC = rec
             out = 'ok'
             try:
@@ -327,12 +329,15 @@ def run_ops(ops):
                 out = 'raised'; tags.add('sep-raised:' + type(e).__name__)
             finally:
                 _REC = None
-            expected = Ha if b is None else (0.0 if a is b else Ha - Hb)
+            expected = Ha if (b is None or b_empty) else (0.0 if a is b else Ha - Hb)
             Hread = read(a, 'H')
             tol = 1e-6 * max(abs(Ha), abs(Hb)) + 1e-5 * last_slope(rec) + 1e-9
             model_in.append(head + f' ea={1 if a.isempty() else 0} kind=H sol={sol_tokens(rec)}')
             outs.append(answer(a, out, Hread, rec, tol))
-            tags.add('sep' + (':none' if b is None else ':same' if a is b else ''))
+            tags.add('sep' + (':none' if b is None else ':empty-other' if b_empty else ':same' if a is b else ''))
+            if (b is None or b_empty) and (out != 'ok' or rec or a.T != Ta or a.P != Pa or ph_of(a) != pha):
+                fail('sep:noop', f'separate_out of {"None" if b is None else "an empty stream"} is not a no-op: outcome {out}, '
+                                 f'{len(rec)} solver call(s), T {Ta!r} → {a.T!r}, P {Pa!r} → {a.P!r}, phase {pha} → {ph_of(a)}')
             if b is not None and a is not b and not b.isempty(): nontrivial = True
             if out == 'ok':
                 if not abs(Hread - expected) <= tol:
@@ -538,12 +543,15 @@ def gen_case(rng):
         else:
             a = rng.choice(cand)
             r2 = rng.random()
-            if r2 < 0.8:
+            if r2 < 0.76:
                 fr = ','.join(r6(rng.uniform(0, 0.9)) if rng.random() < 0.8 else '0.0' for _ in CHEMS)
                 b = add_obj(ops, f'sub {a} {fr} {r6(rng.uniform(-25, 25))}')
                 ops.append(f'sep {a} {b}')
-            elif r2 < 0.9:
+            elif r2 < 0.86:
                 ops.append(f'sep {a} {a}')
+            elif r2 < 0.93:
+                b = add_obj(ops, f'S {rng.choice("lg")} {gen_T(rng)} {gen_P(rng)} {gen_flows(rng, True)}')
+                ops.append(f'sep {a} {b}')            # an empty stream: nothing may change
             else:
                 b = add_obj(ops, 'N'); ops.append(f'sep {a} {b}')
     return Case(ops, {})
@@ -580,6 +588,9 @@ def corpus():
               f'S l 298.15 101325.0 {E}', 'mix 3 0,1,2 dT 15.0 1', 'N', f'S g 298.15 101325.0 {E}', 'mix 5 0,4,1 abs 0.0 1']),
         # no non-empty inlet at all: the receiver is emptied, nothing is solved
         Case([f'S l 320.0 101325.0 {E}', 'Q 10.0', 'S g 400.0 50000.0 1.0,0,0,0,0', 'mix 2 0,1 abs 7.0 0', 'mix 2 - abs 0.0 0']),
+        # separate_out of an empty stream (also the empty stream itself) is a no-op: T stays bit for bit, no solve
+        Case(['S l 330.0 101325.0 10.0,4.0,0,1.0,0', f'S g 400.0 50000.0 {E}', 'sep 0 1', f'S l 298.15 101325.0 {E}', 'sep 2 2',
+              'sep 0 2']),
         # separate_out: a share, the stream itself, None; empty streams and the zero shortcut
         Case(['S l 330.0 101325.0 10.0,4.0,0,1.0,0', 'sub 0 0.5,0.25,0,0.9,0 12.0', 'sep 0 1', 'sep 0 0', 'N', 'sep 0 2',
               'set 0 H zero 0', 'set 0 H abs 5.0', f'S g 298.15 101325.0 {E}', 'set 3 S abs 5.0']),
